@@ -76,7 +76,7 @@ def wl_cbf(ctx, rng, case):
             ctx.check(bytes(f) == before, f"removing a key reported absent changed the filter (step {step})", key=k)
             ctx.count("absent_removals")
         where = f"after step {step} ({case.ops[-1]})"
-        for k in keys:
+        for k in ctx.alternating(keys):
             ctx.counters["oracle_evaluations"] += 1
             c = f.check(k)
             if c < out[k]:
@@ -147,7 +147,7 @@ def _ccf_run(ctx, rng, case, refill):
 
     def oracle(f, model, i, op, outcome, before):
         where = f"after op {i} {op} -> {outcome[0]}"
-        for k in keys:
+        for k in ctx.alternating(keys):
             ctx.counters["oracle_evaluations"] += 1
             got, want = f.check(k), model.count(k)
             if got != want:
